@@ -294,6 +294,33 @@ fn run_generic<VI: ValGen, VL: ValGen>(case: &Case, obs: &mut Obs) {
         obs.nt();
     }
 
+    // refusals must not depend on the cache either: an over-long prefix that extends something
+    // the (warm) cache holds is refused exactly as it is without a cache
+    if !obs.failed() {
+        for (agg, pfx) in case.history.iter().rev().take(4) {
+            let agg = *agg as usize % 2;
+            for extra in [1usize, 3] {
+                let mut b = pfx.bools();
+                let fill = b.last().copied().unwrap_or(false);
+                while b.len() < bits + extra {
+                    b.push(fill);
+                }
+                let long = IdpfInput::from_bools(&b);
+                match guard(|| idpf.eval(agg, &public, &keys[agg], &long, &case.ctx.0, &case.nonce.0, caches[agg].as_mut())) {
+                    Ok(Err(_)) => obs.label("over-long-prefix-refused-with-warm-cache"),
+                    Ok(Ok(_)) => {
+                        obs.fail("warm-cache-accepts-over-long-prefix", format!("aggregator {agg}: with cache {:?} (warm after the history) Idpf::eval accepted a prefix of {} bits for a {bits}-bit tree; without a cache it is refused", case.cache, b.len()));
+                        return;
+                    }
+                    Err(pn) => {
+                        obs.fail(format!("eval-over-long-{}", panic_sig(&pn)), format!("Idpf::eval panicked on an over-long prefix with a warm cache: {pn}"));
+                        return;
+                    }
+                }
+            }
+        }
+    }
+
     // error cases
     let empty = IdpfInput::from_bools(&[]);
     let long = IdpfInput::from_bools(&vec![false; bits + 1]);
